@@ -1290,6 +1290,12 @@ func (r *Replica) applyWALSegmentsV3(ctx context.Context, client ReplicaClientV3
 				return err
 			}
 			expectedIndex++
+		} else if seg.Index != expectedIndex-1 {
+			// A continuation segment must belong to the WAL index being
+			// assembled. Without this, losing the first segment of the next
+			// index goes unnoticed whenever its second segment happens to
+			// start at the byte count reached in the current index.
+			return fmt.Errorf("missing WAL segment: expected %d/0, got %d/%d", expectedIndex, seg.Index, seg.Offset)
 		} else if seg.Offset != offset {
 			return fmt.Errorf("missing WAL segment: expected %d/%d, got %d/%d", seg.Index, offset, seg.Index, seg.Offset)
 		}
